@@ -6,16 +6,18 @@
     channel: a region is a set of frames F and vectors V whose contents refer only to F and V
     ([stok]); evaluation started inside a region writes nothing outside it, and two disjoint regions
     stay disjoint and intact whichever of them evaluates - an invariant of every interleaving.
-    Not proved: that what instance B READS is determined by its region alone up to a renaming of
-    addresses (allocation indices depend on how much the other instance has allocated); that half is
-    covered by the correspondence check, which compares B interleaved with A against B alone.
+    The fourth group (Proofs/Locality.v) is the read half: what an evaluation computes is determined by
+    the frames and vectors of its region alone - from any state of the same size that holds the same
+    frames and vectors on the region it gives the same result. Not proved: the same up to a renaming
+    of addresses when the other instance has allocated a different AMOUNT (allocation indices shift);
+    the correspondence check compares B interleaved with A against B alone.
     The third group (Proofs/LoaderRegion.v) lifts the invariant to whole top-level forms evaluated
     through an instance - imports and library instantiation (file and registered libraries, nested
     import sets, library bodies), definitions, syntax definitions, expressions. *)
-From Coq Require Import List.
+From Coq Require Import List NArith.
 From RV Require Import Model.Common Model.Ast Model.Value Model.Reader Model.Interp
   Model.Eval Spec.EvalSpec Proofs.ImportProofs Proofs.LoaderProofs Proofs.WorldProofs Proofs.EvalProofs
-  Proofs.LibBoot Proofs.RegionProofs Proofs.RegionBoot Proofs.LoaderRegion Proofs.InstBoot.
+  Proofs.LibBoot Proofs.RegionProofs Proofs.RegionBoot Proofs.LoaderRegion Proofs.InstBoot Proofs.Locality.
 Import ListNotations.
 
 (** reading and transforming a form changes nothing but (possibly) the syntax table *)
@@ -113,3 +115,59 @@ Proof. exact two_instances. Qed.
 Theorem C19_boot_instance_in_region :
   inst_ok (all_frames boot_state) (all_vectors boot_state) boot_inst /\ i_env boot_inst = boot_root.
 Proof. exact boot_instance_in_region. Qed.
+
+(** * the read half (Proofs/Locality.v) *)
+
+(** [same_on F V st w]: [w] has as many frames and vectors as [st] and holds the same ones on [F] and [V] -
+    it may hold anything else elsewhere, for instance what another instance defined or mutated.
+    An evaluation started in a region gives THE SAME RESULT (value, or error with its location) from [w] as
+    from [st], and the states reached agree again on the region reached. With the region invariant above
+    (nothing outside the region is written) this is non-interference in both directions: what the other
+    instance's frames hold can neither be changed nor observed. (Same sizes: how MUCH the other instance has
+    allocated shifts the addresses of later allocations; a value never shows its address to a program -
+    display prints contents, eqv? on vectors compares addresses of the same store - but the statement up to
+    renaming is not proved; the correspondence check compares B interleaved with A against B alone.) *)
+Theorem C19_evaluation_reads_only_its_region : forall st env e r st' F V w,
+  ev st env e r st' -> stok F V st -> F env -> same_on F V st w ->
+  exists w', ev w env e r w' /\
+    forall F' V', step_ok F V st F' V' st' -> same_on F' V' st' w'.
+Proof. exact evaluation_reads_only_its_region. Qed.
+
+Theorem C19_application_reads_only_its_region : forall st p args r st' F V w,
+  app st p args r st' -> stok F V st -> vok F V p -> Forall (vok F V) args -> same_on F V st w ->
+  exists w', app w p args r w' /\
+    forall F' V', step_ok F V st F' V' st' -> same_on F' V' st' w'.
+Proof. exact application_reads_only_its_region. Qed.
+
+(** for the evaluator of the model (the one the correspondence check runs against the code) *)
+Theorem C19_value_independent_of_the_rest : forall fuel e env st v st' F V w,
+  eval_expr fuel e env st = (Ok v, st') -> stok F V st -> F env -> same_on F V st w ->
+  exists n w', (forall f, n <= f -> eval_expr f e env w = (Ok v, w')) /\
+    forall F' V', step_ok F V st F' V' st' -> same_on F' V' st' w'.
+Proof. exact eval_value_independent_of_the_rest. Qed.
+
+Theorem C19_failure_independent_of_the_rest : forall fuel e env st r st' F V w,
+  eval_expr fuel e env st = (r, st') -> failed r -> stok F V st -> F env -> same_on F V st w ->
+  exists r' n w', failed r' /\ (forall f, n <= f -> eval_expr f e env w = (r', w')) /\
+    forall F' V', step_ok F V st F' V' st' -> same_on F' V' st' w'.
+Proof. exact eval_failure_independent_of_the_rest. Qed.
+
+(** both halves for two instances over one store *)
+Theorem C19_two_instances_do_not_see_each_other : forall st env e r st' F1 V1 F2 V2 w,
+  ev st env e r st' -> stok F1 V1 st -> stok F2 V2 st -> disjoint F1 F2 -> disjoint V1 V2 -> F1 env ->
+  same_on F1 V1 st w ->
+  exists w', ev w env e r w' /\
+    (forall a, F2 a -> nth_error (frames st') a = nth_error (frames st) a) /\
+    (forall x, V2 x -> nth_error (vectors st') x = nth_error (vectors st) x) /\
+    (forall a, F2 a -> nth_error (frames w') a = nth_error (frames w) a) /\
+    (forall x, V2 x -> nth_error (vectors w') x = nth_error (vectors w) x).
+Proof. exact two_instances_do_not_see_each_other. Qed.
+
+(** not vacuous: two different states that are the same on a region *)
+Theorem C19_same_on_is_not_equality :
+  let st := {| frames := [{| f_parent := None; f_defs := [] |}; {| f_parent := None; f_defs := [] |}];
+               vectors := []; out := []; ticks := [] |} in
+  let w := {| frames := [{| f_parent := None; f_defs := [] |}; {| f_parent := None; f_defs := [([120%N], VNil)] |}];
+              vectors := []; out := []; ticks := [] |} in
+  same_on (fun a => a = 0) (fun _ => False) st w /\ stok (fun a => a = 0) (fun _ => False) st /\ st <> w.
+Proof. exact same_on_is_not_equality. Qed.
